@@ -6,7 +6,7 @@ Same line protocol as the Lean driver m_c19 (lean/Drivers/C19.lean): one request
   reset                         forget all containers (the interpreter and the runtime's module state stay!)
   use i                         select container slot i (several containers live side by side in one process)
   new KIND lo hi base U O N     create a container in the current slot; KIND in ARRAY LIST BAG SET; lo int; hi int or
-                                `?` (indeterminate upper bound); base = 0|1|2|3|4 (INTEGER STRING REAL(whole numbers) BOOLEAN(payload 0/1) LOGICAL(payload 0 = Unknown)) or kind letters down to
+                                `?` (indeterminate upper bound); base = 0|1|2|3|4|5 (INTEGER STRING REAL(whole numbers) BOOLEAN(payload 0/1) LOGICAL(payload 0 = Unknown) NUMBER(base type only)) or kind letters down to
                                 a simple type: A0, LS2 (LIST OF SET OF REAL), ALS2 …; U,O = UNIQUE/OPTIONAL flags 0|1;
                                 N = 1: the base type is passed *by name* with scope= (exercises Type.get_type)
   set i t v | get i | add t v   item assignment, item read, BAG/SET add; value = type t (as for base), payload v;
@@ -30,14 +30,14 @@ REPO = os.environ.get("VERIF_REPO", "/repo")
 sys.path.insert(0, os.path.join(REPO, "src", "exp2python", "python"))
 sys.dont_write_bytecode = True
 
-from stepcode.SimpleDataTypes import INTEGER, STRING, REAL, LOGICAL, BOOLEAN, Unknown  # noqa: E402
+from stepcode.SimpleDataTypes import INTEGER, STRING, REAL, LOGICAL, BOOLEAN, NUMBER, Unknown  # noqa: E402
 from stepcode import AggregationDataTypes as A                               # noqa: E402
 from stepcode.BaseType import Aggregate as BaseTypeAggregate                 # noqa: E402
 
 from stepcode import Builtin                                                 # noqa: E402
 BUILTIN = ("SIZEOF", "HIINDEX", "LOINDEX", "HIBOUND", "LOBOUND", "VALUE_UNIQUE")
-BASES = [INTEGER, STRING, REAL, BOOLEAN, LOGICAL]
-BASE_NAMES = ["INTEGER", "STRING", "REAL", "BOOLEAN", "LOGICAL"]
+BASES = [INTEGER, STRING, REAL, BOOLEAN, LOGICAL, NUMBER]
+BASE_NAMES = ["INTEGER", "STRING", "REAL", "BOOLEAN", "LOGICAL", "NUMBER"]
 SCOPE = sys.modules[__name__]
 
 
@@ -51,7 +51,7 @@ def parse_ty(t):
     if len(t) > 6:
         raise ValueError("type token")
     if len(t) == 1:
-        if t not in "01234":
+        if t not in "012345":
             raise ValueError("type tag")
         return ("s", int(t))
     if t[0] in INNER:
@@ -83,6 +83,8 @@ def mk_val(t, v, declared=None):
             OBJECTS[id(o)] = (t, v)
         return OBJECTS[(t, v)]
     b = ty[1]
+    if b == 5:
+        raise ValueError("NUMBER has no values of its own")
     if b == 0:
         return INTEGER(v)
     if b == 1:
